@@ -43,7 +43,7 @@ def step (ws : List String) : String :=
     let val : Option (Option JVal) := if pts == ["-"] then some none else (JVal.ofWire pts).map some
     match JVal.ofWire dts, val with
     | some doc, some v =>
-      if mode == "pool" || mode == "heap" then treeAnswer (mergePath doc (hexArg ptr) v)
+      if mode == "pool" || mode == "heap" || mode == "reg" then treeAnswer (mergePath doc (hexArg ptr) v)
       else "bad-op"
     | _, _ => "bad-op"
   | _ => "bad-op"
